@@ -35,6 +35,10 @@ type Config struct {
 	Faults         []Fault `json:"faults,omitempty"`
 	LogYield       int     `json:"log_yield,omitempty"` // the server has a Logger that yields the processor this many times per line
 	BaseDeadlineMs int     `json:"base_deadline_ms,omitempty"`
+	// OwnBase: ServerOptions.NewContext hands every request a base context of
+	// its own that the request's handler can end (release outcome "endbase");
+	// nobody else's context may notice.
+	OwnBase bool `json:"own_base,omitempty"`
 }
 
 // Step is one external event of a scenario script.
@@ -304,6 +308,12 @@ func (w *world) assign(ctx context.Context, method string) jrpc2.Handler {
 					}
 					ret = "err:-32001"
 					return nil, jrpc2.Errorf(-32001, "handler error %d", p.K).WithData(tok)
+				case o == "endbase":
+					// ends the base context NewContext made for this very request
+					if c, ok := ctx.Value(ownBaseKey{}).(context.CancelFunc); ok {
+						c()
+					}
+					return tok, nil
 				case o == "bad":
 					ret = "bad"
 					return make(chan int), nil
@@ -334,6 +344,8 @@ func (w *world) assign(ctx context.Context, method string) jrpc2.Handler {
 		}
 	}
 }
+
+type ownBaseKey struct{}
 
 var errBaseCause = errors.New("the embedder's own reason")
 
@@ -521,6 +533,10 @@ func (w *world) exec(i int, st Step) {
 			ctx, cancel = context.WithTimeoutCause(context.Background(), time.Duration(st.D)*time.Millisecond, errBaseCause)
 		} else if st.D > 0 {
 			ctx, cancel = context.WithTimeout(context.Background(), time.Duration(st.D)*time.Millisecond)
+		} else if st.D == -2 {
+			// a context that has already ended: the request goes out all the same
+			// (a handler telling its client that it was cancelled does this)
+			cancel()
 		} else if st.D < 0 {
 			// a context that can never end: only a reply or the end of the
 			// connection completes the push
@@ -735,6 +751,15 @@ func Run(t *testing.T, sc Scenario) (h *History) {
 				baseCancels = append(baseCancels, cancel)
 				bmu.Unlock()
 				return ctx
+			}
+		}
+		if sc.Cfg.OwnBase && opts.NewContext == nil {
+			opts.NewContext = func() context.Context {
+				ctx, cancel := context.WithCancel(context.Background())
+				bmu.Lock()
+				baseCancels = append(baseCancels, cancel)
+				bmu.Unlock()
+				return context.WithValue(ctx, ownBaseKey{}, cancel)
 			}
 		}
 		w.srv = jrpc2.NewServer(assignFunc(w.assign), opts)
